@@ -69,16 +69,28 @@ theorem collect_getElem {rs : List R} {out : List V} (h : collect rs = some out)
         have := ih hrest i (by simpa using hi)
         simpa using this
 
-/-- `rank` (when the call does not raise): output cell `i` is the per-cell rank function of the
-    reference value and the layer values at cell `i` -/
-theorem per_cell_rank (ref : List Int) (n : Nat) (layers : List (List V)) (out : List V)
-    (h : rank ref n layers = some out) (i : Nat) (hi : i < n) (hr : i < ref.length) :
-    out[i]? = some (rankCell ref[i] (cellAt layers i)) := by
-  have hl : i < (List.zipWith rankCellR ref (zipCells n layers)).length := by
+/-- operators that may raise (`rank`, `popularity`): if the call returns, output cell `i` is the
+    per-cell function of the reference value and the layer values at cell `i` -/
+theorem per_cell_raising (f : Int → List V → R) (ref : List Int) (n : Nat) (layers : List (List V))
+    (out : List V) (h : collect (List.zipWith f ref (zipCells n layers)) = some out)
+    (i : Nat) (hi : i < n) (hr : i < ref.length) :
+    ∃ v, f ref[i] (cellAt layers i) = .ok v ∧ out[i]? = some v := by
+  have hl : i < (List.zipWith f ref (zipCells n layers)).length := by
     simp only [zipCells, List.length_zipWith, List.length_map, List.length_range]; omega
   obtain ⟨v, hv, ho⟩ := collect_getElem h i hl
   simp only [List.getElem_zipWith, zipCells, List.getElem_map, List.getElem_range] at hv
+  exact ⟨v, hv, ho⟩
+
+theorem per_cell_rank (ref : List Int) (n : Nat) (layers : List (List V)) (out : List V)
+    (h : rank ref n layers = some out) (i : Nat) (hi : i < n) (hr : i < ref.length) :
+    out[i]? = some (rankCell ref[i] (cellAt layers i)) := by
+  obtain ⟨v, hv, ho⟩ := per_cell_raising rankCellR ref n layers out h i hi hr
   simp [ho, rankCell, hv]
+
+theorem per_cell_popularity (ref : List Int) (n : Nat) (layers : List (List V)) (out : List V)
+    (h : popularity ref n layers = some out) (i : Nat) (hi : i < n) (hr : i < ref.length) :
+    ∃ v, popularityCellR ref[i] (cellAt layers i) = .ok v ∧ out[i]? = some v :=
+  per_cell_raising popularityCellR ref n layers out h i hi hr
 
 /-! ### nan_absorbs: a NaN in any data layer makes the cell NaN (and nothing else does) -/
 
